@@ -227,7 +227,11 @@ def project(case, res):
     if case.get("ochcap") and fin0 and steps:
         # stalled terminal: what it receives once everything is wound down counts as seen at the end of the last operation
         steps[-1]["och"] = (steps[-1].get("och") or []) + (fin0[0].get("och") or [])
-        steps[-1]["ret"] = (steps[-1].get("ret") or []) + (fin0[0].get("ret") or [])
+        for fld in ("ret", "log", "ev"):
+            steps[-1][fld] = (steps[-1].get(fld) or []) + (fin0[0].get(fld) or [])
+        merged_final = True
+    else:
+        merged_final = False
     for s in steps:
         att = s.get("att") or []
         now = attached | set(att)
@@ -295,7 +299,7 @@ def project(case, res):
     fin = [s for s in (res.get("steps") or []) if s.get("final")]
     leaks = len(fin[0].get("leaks") or []) if fin else 0
     stuck = bool(res.get("bubble_panic")) or not fin or len(steps) != len(case["ops"])
-    jn = (fin[0].get("json_lines", 0) - len([r for r in fin[0].get("log") or [] if r.get("json", True)])) if fin else 0
+    jn = (fin[0].get("json_lines", 0) - (0 if merged_final else len([r for r in fin[0].get("log") or [] if r.get("json", True)]))) if fin else 0
     return terms, leaks, stuck, bool(fin and fin[0].get("json_ok")), max(jn, 0)
 
 
